@@ -57,8 +57,11 @@ C20(E, kept, total, deadlineMs) ==
            ~\E j \in Succ(E, t) : j < g /\ Epoch(E, StartOf(E, j), t) = Epoch(E, g, t)}}
   \cup {[f |-> "estimate-differs-from-probe", t |-> t, at |-> g, series |-> E[g].series, total |-> E[g].total] : <<t, g>> \in
       {<<t, g>> \in Ts(E) \X Idx(E) : E[g].ev = "get" /\ E[g].t = t /\ E[g].found /\
-           (\E j \in Succ(E, t) : j < g /\ Epoch(E, StartOf(E, j), t) = Epoch(E, g, t)) /\
-           (E[g].series # kept[t] \/ E[g].total # total[t] \/ E[g].health # "up")}}
+           \* (the counts a successful probe must give are recorded with its completion: they depend on the metric
+           \* relabel rules in force when it started)
+           LET js == {j \in Succ(E, t) : j < g /\ Epoch(E, StartOf(E, j), t) = Epoch(E, g, t)} IN
+           js # {} /\ (E[g].health # "up" \/ ~\E j \in js : E[g].total = E[j].total /\
+                                      (E[g].series = E[j].series \/ (Len(E[j].set) > 0 /\ E[g].series = E[j].set[1])))}}
   \* every discovered target is probed once it is asked for (judged when the job's scrape info has been
   \* available, and the lookup past, for at least the deadline)
   \cup {[f |-> "looked-up-target-never-probed", t |-> t, at |-> g] : <<t, g>> \in
